@@ -491,7 +491,7 @@ func gen(r0 *Rng, tier string, emit func(c Sx)) {
 	r := NewRng(r0.U64())
 	nTx, nBig := 700, 3
 	if tier == "thorough" {
-		nTx, nBig = 12000, 40
+		nTx, nBig = 5000, 10
 	}
 	raw := func(b []byte) { emit(L(I(0), B(b))) }
 
